@@ -34,6 +34,9 @@ def run(ctx, test="^TestVerifC05$", name="C05", files=None):
         c09.run(ctx, test="^TestVerifC05Frames$", name="C05-frames")
         # requests which arrive before the service is registered are not served; every request after the registration is
         import props.C07 as c07
+        # the response to a request carries that request's call identifier as it was sent, for every spelling of an identifier
+        # the endpoint accepts: the per-frame differential of C07 (frames written compared with Dispatch.process)
+        c07.run(ctx)
         rc3, out3, recs3 = ctx.go("", "^TestVerifC05RegisterLater$", c07.FILES, "wsrpc", timeout=240)
         ctx.records += recs3
         if rc3 != 0 or not recs3:
